@@ -308,7 +308,7 @@ def run_shard(ctx):
         f.choices = {"l1": [{"name": "a", "label": "A"}, {"name": "b", "label": "B"}]}
         judge(ctx, f, "table-list", f"table-list|{sk}|{what}")
     # one question name used in several groups/repeats (legal: names are unique per section), each copy with its own kind of default
-    kinds = [("static", "pending"), ("dynamic", "uuid()"), ("static", "unknown"), ("dynamic", "${src} + 1"), ("none", None), ("trigger", "concat('t1', ${src})"), ("trigger", "'t2'")]
+    kinds = [("static", "pending"), ("dynamic", "uuid()"), ("static", "unknown"), ("dynamic", "${src} + 1"), ("none", None), ("trigger", "concat('t1', ${src})"), ("trigger", "'t2'"), ("trigger", "'t2'"), ("trigger", None)]  # two copies may share trigger and calculation
     for k, combo in enumerate(itertools.permutations(kinds, 3)):
         n += 1
         if not ctx.mine(n) or (ctx.tier == "quick" and k % 4):
@@ -319,7 +319,7 @@ def run_shard(ctx):
             sk = ["group", "repeat", "group"][(j + k) % 3]
             cells = {"label": "code"}
             if kd == "trigger":
-                cells.update({"calculation": dv, "trigger": "${src}"})
+                cells.update({"calculation": dv, "trigger": "${src}"} if dv is not None else {"trigger": "${src}"})
             elif dv is not None:
                 cells["default"] = dv
             f.survey.append(Row(sk, f"begin {sk}", f"sec{j}", {"label": f"S{j}"}, [Row("q", "text", "code", cells), Row("q", "text", f"pad{j}", {"label": "p"})]))
